@@ -280,9 +280,28 @@ def run_float_path(P, rep, rule="R-MATH.float"):
 def run_zero_test_operand(P, rep, rule="R-MATH.zerotest"):
     """divided_by / modulo: every comparison with the constant zero in the filter's body tests a number that derives from
     the filter's *argument* (self.args, evaluated against the runtime), never from the piped input (parameter 2): a guard on the
-    dividend rejects `0 | modulo: 2.5` and lets `5 | modulo: 0.0` through."""
+    dividend rejects `0 | modulo: 2.5` and lets `5 | modulo: 0.0` through.  A zero test that was moved into a private
+    one-parameter helper (or a closure) is followed: the value handed to the helper must not derive from the input."""
     from origins import backward_slice
     from mirutil import op_local
+
+    def zero_tests(g):
+        out = []
+        for b in g.blocks:
+            for st in b["s"]:
+                if st[0] != "a" or st[2]["k"] != "bin" or st[2]["op"] not in ("Eq", "Ne"):
+                    continue
+                a, c = st[2]["a"], st[2]["b"]
+                zero = lambda o: o[0] == "k" and isinstance(o[1], dict) and (o[1].get("val") == 0 or str(o[1].get("fval", "")).lstrip("+-") in ("0f64", "0.0f64", "0", "0.0"))  # noqa: E731
+                other = c if zero(a) else a if zero(c) else None
+                ol = op_local(other) if other is not None else None
+                if ol and P.local_ty(g, ol[0]).lstrip("&") in ("i64", "f64"):
+                    out.append((ol[0], st[3] if len(st) > 3 else None))
+        return out
+
+    def closures_of(g):
+        return [h for h in P.fns.values() if h.kind == "closure" and (h.parent == g.id or getattr(h, "root", None) == g.id)]
+
     for nm in ("DividedByFilter", "ModuloFilter"):
         key = "<liquid_lib::stdlib::filters::math::%s as liquid_core::parser::filter::Filter>::evaluate" % nm
         fns = P.by_key(key)
@@ -292,27 +311,30 @@ def run_zero_test_operand(P, rep, rule="R-MATH.zerotest"):
         fn = fns[0]
         n = 0
         bad = None
-        for b in fn.blocks:
-            for st in b["s"]:
-                if st[0] != "a" or st[2]["k"] != "bin" or st[2]["op"] not in ("Eq", "Ne"):
-                    continue
-                a, c = st[2]["a"], st[2]["b"]
-                zero = lambda o: o[0] == "k" and isinstance(o[1], dict) and (o[1].get("val") == 0 or str(o[1].get("fval", "")).lstrip("+-") in ("0f64", "0.0f64", "0", "0.0"))  # noqa: E731
-                other = c if zero(a) else a if zero(c) else None
-                if other is None:
-                    continue
-                ol = op_local(other)
-                if not ol or P.local_ty(fn, ol[0]) not in ("i64", "f64"):
-                    continue
-                n += 1
-                locs, _ = backward_slice(fn, ol[0])
-                if 2 in locs:
-                    bad = bad or (st[3] if len(st) > 3 else None)
+        for l, line in zero_tests(fn):
+            n += 1
+            if 2 in backward_slice(fn, l)[0]:
+                bad = bad or line
+        for h in closures_of(fn):
+            n += len(zero_tests(h))
+        for bi, t in P.calls(fn):
+            f = t.get("f")
+            g = P.fns.get(f["id"]) if f else None
+            if g is None or g.kind == "closure" or g.pub or g.file != fn.file or g.impl:
+                continue
+            k = len(zero_tests(g)) + sum(len(zero_tests(h)) for h in closures_of(g))
+            if not k:
+                continue
+            n += k
+            for a in t["args"]:
+                ol = op_local(a)
+                if ol and g.argc == 1 and 2 in backward_slice(fn, ol[0])[0]:
+                    bad = bad or t["line"]
         site = nm.replace("Filter", "") + " zero test"
         if bad is not None:
             rep.viol(rule, site, P.where(fn, bad), "the zero test of the division guard reads the piped input, not the argument: a zero dividend is rejected "
                      "and a zero (float) divisor is let through")
-        elif n < 2:
-            rep.viol(rule, site, P.where(fn), "expected an integer and a float zero test on the divisor, found %d: re-derive" % n)
+        elif n < 1:
+            rep.viol(rule, site, P.where(fn), "no zero test on the divisor found (body, closures, private helpers): re-derive")
         else:
-            rep.ok(rule, site, P.where(fn), "%d zero tests, all on values derived from the argument" % n)
+            rep.ok(rule, site, P.where(fn), "%d zero tests, none on a value derived from the piped input" % n)
